@@ -215,6 +215,8 @@ namespace c12
     // exploration threshold from every centre) keep an uninitialised patch number / get distance 0 by wrap-around.  With the
     // switch on, PartiIterative only sees meshes on which every search reaches every cell; the others go to Parti2Lvl.
     if(which == 1 && may_leave_cells_unreached && c.excl("c12-iterative-unreached")) which = 0;
+    // finer switch (sub-class of the above, used to isolate the facet-connected variant): only facet-disconnected meshes are diverted
+    if(which == 1 && comps > 1 && c.excl("c12-iterative-disconnected")) which = 0;
     if(which == 0)
     {
       // requested counts 1..32; half of the cases ask for a count for which a 2-level partition exists (ncells * factor^k)
